@@ -990,6 +990,9 @@ def _read_asn1_integer(
         header=header,
         hint=hint,
     )
+    if not raw_int:
+        raise ValueError("ASN.1 INTEGER value must contain at least one octet")
+
     return int.from_bytes(raw_int, byteorder="big", signed=True), consumed
 
 
@@ -1007,6 +1010,9 @@ def _read_asn1_object_identifier(
         header=header,
         hint=hint,
     )
+
+    if not raw_oid:
+        raise ValueError("ASN.1 OBJECT IDENTIFIER value must contain at least one octet")
 
     first_element = struct.unpack("B", raw_oid[:1])[0]
     second_element = first_element % 40
